@@ -14,7 +14,8 @@
                                                answers per posting `comm=q` of its cost or `-`
    os.collapse <depth> <σ: accounts joined by ;> <account|amount>…   rows `account|comm=q,comm=q` (zero entries dropped)
    os.subtotal <account|amount>…               rows of subtotal_posts
-   os.prices   <σ: commodities joined by ;> <commodity>…             group order of prices/pricedb
+   os.prices   <σ: commodities joined by ;> <posting commodity>…     group order of prices/pricedb; the fields are the
+                                               commodities of the journal's postings in journal order (repeats allowed)
    os.strip    <amount>…                       strip_annotations (lots merge; keep flag of the first)
 -/
 import LedgerModel.Model.OrderSources
@@ -149,7 +150,8 @@ def opSubtotal (args : List String) : String :=
 
 def opPrices (args : List String) : String :=
   match args with
-  | σ :: comms => "ok\t" ++ "\t".intercalate ((pricesGroups (addrOf (splitList σ ";")) (comms.map (fun c => (c, ())))).map (·.1))
+  | σ :: comms => "ok\t" ++ "\t".intercalate
+      ((pricesGroups (addrOf (splitList σ ";")) ((firstAppearance comms).map (fun c => (c, ())))).map (·.1))
   | _ => "err\tbad-op"
 
 end OS
